@@ -2,6 +2,7 @@
 From Coq Require Import ZArith List Bool Reals Sorted. Import ListNotations.
 From PV Require Import Num NumR model.Geom proofs.LatticeFacts proofs.SiteFacts.
 From PV Require Import gen.GenFns model.Iter model.Pipeline proofs.ListLemmas proofs.SrcCell.
+From PV Require Import proofs.SourceHeadlinesCell.
 
 Theorem C14_to_cartesian_linear :
   forall c : cellR, to_cartesian NumR c (1%R, 0%R) = vecA c /\ to_cartesian NumR c (0%R, 1%R) =
@@ -97,4 +98,18 @@ Theorem C14_cell_source_translated :
     true /\ translated_gen_cell_area = true /\ translated_gen_to_cartesian = true.
 Proof. exact cell_source_translated. Qed.
 Print Assumptions C14_cell_source_translated.
+
+
+Theorem C14_source_cell_area_is_cross :
+  forall c : cellR, let A := gen_to_cartesian NumR c 1%R 0%R in let B := gen_to_cartesian NumR c
+    0%R 1%R in gen_cell_area NumR c = (fst A * snd B - snd A * fst B)%R.
+Proof. exact source_cell_area_is_cross. Qed.
+Print Assumptions C14_source_cell_area_is_cross.
+
+Theorem C14_source_periodic_images_exact :
+  forall (c : cellR) (t : tfR) (k : Z) (zero : bool), affine_row t -> gen_periodic_images NumR c
+    t k zero = map (fun nm : Z * Z => tf_translate (to_cartesian_isometry NumR c t) (lattice_vec
+    c (fst nm) (snd nm))) (shell_indices k zero).
+Proof. exact source_periodic_images_exact. Qed.
+Print Assumptions C14_source_periodic_images_exact.
 
